@@ -1,7 +1,8 @@
 #!/bin/bash
 # usage: tools/seedmatrix.sh [seed-id ...]  -- runs the registered check of each seeded change's property against a scratch
 # worktree with the change applied (tools/muttest.sh) and stores the verdict lines in seeded/<id>/check.log
-cd /verif
+V=$(cd "$(dirname "$0")/.." && pwd)
+cd $V
 ids="$@"
 [ -z "$ids" ] && ids=$(ls seeded)
 for id in $ids; do
@@ -9,7 +10,7 @@ for id in $ids; do
   [ -f $d/patch.diff ] || continue
   p=${id%%-*}
   echo "== $id ($(date +%H:%M:%S))"
-  LINES_MAX=30 tools/muttest.sh /verif/$d/patch.diff $p > $d/check.log 2>&1
+  LINES_MAX=30 tools/muttest.sh $V/$d/patch.diff $p > $d/check.log 2>&1
   grep -cE "^VIOLATION" $d/check.log | sed "s/^/   violations: /"
   grep -E "^INCONCLUSIVE" $d/check.log | cut -c1-140 | head -3
 done
